@@ -157,3 +157,28 @@ def parallel_select_session(rng):
     for c in range(1, nconn + 1):
         lines.append("C %d %s" % (nconn + 20, core.hx(gen.enc_cmd([b"SELECT", b"%d" % (c % 16)]) + gen.enc_cmd([b"GET", b"k"]) + gen.enc_cmd([b"GET", b"n"]) + gen.enc_cmd([b"GET", b"a"]))))
     return lines
+
+
+def select_sweep(ndb):
+    """the argument space of SELECT, swept deterministically (added after the seeded change C20-select-single-digit-fastpath: a one-byte fast path
+    that accepted the bytes following '9' as indexes 10-15): every one-byte argument, every two-digit argument, and the spellings strconv.Atoi
+    accepts or refuses for its own reasons.  Before each probe the connection selects database 1 (0 when there is only one) and afterwards it writes the
+    probe's text under one key: a SELECT that was wrongly accepted moves that write into another database, which the final read of every
+    database shows; a wrongly refused one leaves it in the home database."""
+    home = b"1" if ndb > 1 else b"0"
+    args = [bytes([b]) for b in range(256)]
+    args += [b"%d%d" % (a, b) for a in range(10) for b in range(10)]
+    args += [b"+0", b"-0", b"+7", b"00", b"007", b"015", b"0x1", b"1e0", b"1.0", b" 1", b"1 ", b"1\n", b"\t1", b"1_0", b"1,0", b"", "٣".encode(), "１".encode(),
+             b"16", b"17", b"255", b"256", b"65536", b"4294967296", b"4294967297", b"18446744073709551616", b"18446744073709551617",
+             b"9223372036854775807", b"9223372036854775808", b"-9223372036854775808", b"-1", b"-16"]
+    lines = ["S %d" % ndb]
+    for i in range(0, len(args), 12):
+        payload = b""
+        for a in args[i:i + 12]:
+            payload += gen.enc_cmd([b"SELECT", home]) + gen.enc_cmd([b"SELECT", a]) + gen.enc_cmd([b"SET", b"probe", a]) + gen.enc_cmd([b"GET", b"probe"])
+        lines.append("C 1 %s" % core.hx(payload))
+    payload = b""
+    for db in range(ndb):
+        payload += gen.enc_cmd([b"SELECT", b"%d" % db]) + gen.enc_cmd([b"GET", b"probe"])
+    lines.append("C 2 %s" % core.hx(payload))
+    return lines
